@@ -174,13 +174,26 @@ TParse ==
          Diag("C14", e.outcomes[i] \in {"ok", "err"}, [kind |-> "parser did not return a value or an error", parser |-> e.kind, profile |-> e.profile, outcome |-> e.outcomes[i], text |-> e.texts[i]])
   /\ UNCHANGED <<pos, dom, consts>>
 
+\* the command-line perft (depth 2): one line per root move "<peg>: <count> [<fen>]" and a total
+TPerftCli ==
+  /\ IsEvent("PerftCli")
+  /\ LET e == Rec[l] p == Norm(e.pos) ms == Legal(p)
+         want == { <<Peg(m), Cardinality(Legal(Apply(p, m))), ToFen(Apply(p, m))>> : m \in ms }
+         got == { <<Concat(e.lines[i].peg), e.lines[i].count, Concat(e.lines[i].fen)>> : i \in 1..Len(e.lines) }
+         RECURSIVE SumL(_)
+         SumL(i) == IF i > Len(e.lines) THEN 0 ELSE e.lines[i].count + SumL(i + 1)
+     IN IF ~LegalPosition(p) THEN TRUE ELSE
+        /\ Diag("C01", Len(e.lines) = Cardinality(ms) /\ got = want, [kind |-> "command-line perft lines differ from the specification", pos |-> ToFen(p), missing |-> want \ got, extra |-> got \ want])
+        /\ Diag("C01", e.total = SumL(1), [kind |-> "command-line perft total is not the sum of its lines", pos |-> ToFen(p), total |-> e.total])
+  /\ UNCHANGED <<pos, dom, consts>>
+
 TPanic ==
   /\ IsEvent("Panic")
   /\ Diag(Rec[l].prop, FALSE, [kind |-> "panic in code under test", where |-> Rec[l].where, msg |-> Rec[l].msg])
   /\ UNCHANGED <<pos, dom, consts>>
 
 TraceInit == l = 1 /\ pos = StartPos /\ dom = TRUE /\ consts = [mate |-> <<0>>, threshold |-> 0]
-TraceNext == TParse \/ TReset \/ TMove \/ TTerminal \/ TPerformAll \/ TAttackOps \/ THashPair \/ TFen \/ TEvalConsts \/ TEval \/ TPerftNode \/ TPanic
+TraceNext == TPerftCli \/ TParse \/ TReset \/ TMove \/ TTerminal \/ TPerformAll \/ TAttackOps \/ THashPair \/ TFen \/ TEvalConsts \/ TEval \/ TPerftNode \/ TPanic
 
 Accepted == IF TLCGet("stats").diameter - 1 = Len(Rec) THEN PrintT(<<"ACCEPTED", Len(Rec)>>)
             ELSE PrintT(<<"STUCK", TLCGet("stats").diameter, Len(Rec)>>)
